@@ -32,7 +32,7 @@ Trace line (NDJSON, integers only, one per control period; line k is the state a
 motor command computed from it; line 0 is the launch state with the script's initial u = 0):
   tid k t(ms) mode  e ex ey ez (mm, to the CURRENT commanded set-point pw_sp)  sp (mm, shift of pw_sp
   from the launch set-point)  tilt yaw (mrad)  rate (mrad/s)  m[4] lim (milli-rad/s)
-  ri[3] imax[3] (1e-6 rad)  zi zmax (1e-6 m s)  nan (0/1)
+  ri[3] imax[3] (1e-6 rad)  zi zmax (1e-6 m s)  alt (mm above the ground plane)  nan (0/1)
 and on line 0 additionally  ic (the launch configuration: mode, attitude error q, commanded heading
 yaw, launch attitude q0 = yaw*q as signed integer quaternions, off, vel, rate) and n (number of
 lines of the trace).
@@ -52,6 +52,11 @@ from harness.core import MachineryError
 NSUB = 10                 # RK4 sub-steps per control period
 T_END_S = 30.0            # simulated seconds per run
 SETPOINT = (0.0, 0.0, 10.0)   # hover set-point (10 m above the model's ground plane z = 0)
+SETPOINTS = (SETPOINT, (30.0, -20.0, 25.0))     # Cascade!HoverPositions, selected by ic["spi"]
+
+
+def setpoint_of(ic):
+    return SETPOINTS[int(ic.get("spi", 0))]
 INT_CLIP = 2_000_000_000  # every logged integer stays below 2^31
 MODES = ("mellinger", "loglinear")
 
@@ -403,14 +408,14 @@ class Loop:
         psi = 2.0 * math.atan2(yz, yw)
         psi = math.atan2(math.sin(psi), math.cos(psi))        # (-pi, pi]
         for i in range(3):
-            x0[self.xi[f"position_op_w_{i}"]] = SETPOINT[i] + float(ic["off"][i])
+            x0[self.xi[f"position_op_w_{i}"]] = setpoint_of(ic)[i] + float(ic["off"][i])
             x0[self.xi[f"velocity_w_p_b_{i}"]] = float(ic["vel"][i])
             x0[self.xi[f"omega_wb_b_{i}"]] = float(ic["rate"][i])
         for i in range(4):
             x0[self.xi[f"quaternion_wb_{i}"]] = quat[i]
         C = self.C
         psi_sp = C["psi_sp"] if yz == 0 and yw > 0 else psi
-        mem0 = np.concatenate([C["u0"], C["i0"], C["e0"], C["de0"], [C["z_i"]], [psi_sp], np.array(SETPOINT)])
+        mem0 = np.concatenate([C["u0"], C["i0"], C["e0"], C["de0"], [C["z_i"]], [psi_sp], np.array(setpoint_of(ic))])
         return x0, mem0
 
     def simulate(self, ic):
@@ -436,7 +441,7 @@ class Loop:
         with np.errstate(all="ignore"):
             e = pw - sp
             en = np.sqrt(np.sum(e * e, axis=0))
-            spd = sp - np.array(SETPOINT)[:, None]
+            spd = sp - np.array(setpoint_of(ic))[:, None]
             spn = np.sqrt(np.sum(spd * spd, axis=0))
             qq = np.sum(q * q, axis=0)
             zbz = (q[0] ** 2 - q[1] ** 2 - q[2] ** 2 + q[3] ** 2) / qq        # world-z component of body z
@@ -457,6 +462,7 @@ class Loop:
             "e": I(en, 1e3), "ex": I(e[0], 1e3), "ey": I(e[1], 1e3), "ez": I(e[2], 1e3), "sp": I(spn, 1e3),
             "tilt": I(tilt, 1e3), "yaw": I(yaw, 1e3), "rate": I(rate, 1e3),
             "m": I(Mm[MEM["u"]], 1e3), "ri": I(Mm[MEM["i0"]], 1e6), "zi": I(Mm[MEM["z_i"]][0], 1e6),
+            "alt": I(np.where(np.isfinite(pw[2]), pw[2], 0.0), 1e3),
         }
         lim = int(np.rint(self.lim * 1e3))
         imax = [int(v) for v in I(self.C["i_max"], 1e6)]
@@ -468,10 +474,10 @@ class Loop:
                   "sp": int(cols["sp"][k]), "tilt": int(cols["tilt"][k]), "yaw": int(cols["yaw"][k]),
                   "rate": int(cols["rate"][k]), "m": [int(v) for v in cols["m"][:, k]], "lim": lim,
                   "ri": [int(v) for v in cols["ri"][:, k]], "imax": imax, "zi": int(cols["zi"][k]), "zmax": zmax,
-                  "nan": 0 if finite[k] else 1}
+                  "alt": int(cols["alt"][k]), "nan": 0 if finite[k] else 1}
             if k == 0:
                 ln["ic"] = {"mode": ic["mode"], "q": [int(c) for c in ic["q"]], "yaw": [int(c) for c in ic["yaw"]],
-                            "q0": [int(c) for c in ic["q0"]], "off": [int(c) for c in ic["off"]],
+                            "q0": [int(c) for c in ic["q0"]], "spi": int(ic.get("spi", 0)), "off": [int(c) for c in ic["off"]],
                             "vel": [int(c) for c in ic["vel"]], "rate": [int(c) for c in ic["rate"]]}
                 ln["n"] = n
             lines.append(ln)
